@@ -132,7 +132,7 @@ def cases(tier, seed):
                     routes = (TREE_ROUTES[k], TREE_ROUTES[(k + 5) % len(TREE_ROUTES)])
                 for r in routes:
                     yield {"kind": "shape", "n": n, "idx": idx, "deco": deco, "route": r, "seed": seed}
-    nrand = 2600 if tier == "quick" else 50000
+    nrand = 6000 if tier == "quick" else 50000
     for i in range(nrand):
         yield {"kind": "random", "i": i, "seed": seed, "tier": tier}     # sizes depend on the tier; --replay re-runs the descriptor alone
 
